@@ -44,6 +44,26 @@ def _brief_exc(res: dict) -> str:
     return f"{res.get('outcome')}:{e.get('type', '')}:{(e.get('innermost_tool') or ['', ''])[1]}"
 
 
+def _collision_of(differing: list[str], ref_tree: dict) -> str:
+    """If EVERY differing path is a path at which two stub texts collide for a known structural reason (see
+    c10.classify_collision), name that reason; otherwise 'none'.  Used only to attribute known findings narrowly."""
+    import json as _json
+
+    from . import c10 as _c10
+
+    api = None
+    for k, ent in ref_tree.items():
+        if k.endswith("__api.json") and "data" in ent:
+            try:
+                api = _json.loads(ent["data"].decode("utf-8"))
+            except ValueError:
+                api = None
+    kinds = {_c10.classify_collision(p, api) for p in differing if p.endswith(".sdsstub")}
+    if len(differing) > 0 and all(p.endswith(".sdsstub") for p in differing) and len(kinds) == 1 and "unclassified" not in kinds:
+        return kinds.pop()
+    return "none"
+
+
 def judge(case: dict, results: list[list[dict]], normalisers: list | None = None) -> dict:
     """results[i][0] is the single step of history i; 0 and 1 are the canonical schedule twice."""
     ref, ref2 = results[0][0], results[1][0]
@@ -77,11 +97,13 @@ def judge(case: dict, results: list[list[dict]], normalisers: list | None = None
             return
         d = engine.first_difference(a["out_tree"], b["out_tree"])
         if d is not None:
+            differing = engine.all_differences(a["out_tree"], b["out_tree"])
             verdict["violations"].append(
                 {
                     "class": "nonrepeatable" if label == "repeat" else "tree-differs",
                     "history": idx,
-                    "detail": {"difference": d, "all_differing": engine.all_differences(a["out_tree"], b["out_tree"])[:20], "sigma": b.get("sigma")},
+                    "detail": {"difference": d, "all_differing": differing[:20], "sigma": b.get("sigma"),
+                               "fingerprint": {"collision": _collision_of(differing, a["out_tree"])}},
                 },
             )
 
